@@ -108,6 +108,15 @@ type world struct {
 	lk         *link
 	nfc        *iso7816.NfcSession
 	chip       *sm.Session
+	// results handed to the caller by earlier exchanges of this session (the slices DoAPDU
+	// returned) with what they must still hold: a later exchange must not change them
+	kept []keptResult
+}
+
+type keptResult struct {
+	n    int
+	got  []byte
+	want []byte
 }
 
 func newWorld(c mac.Cipher, kenc, kmac, ssc []byte) (*world, error) {
@@ -281,6 +290,16 @@ func (w *world) exchange(e exch, skipLe bool) (msg string, sent []byte) {
 	}
 	if out == nil || out.Status != e.RSW || !bytes.Equal(out.Data, rdata) {
 		return fmt.Sprintf("response delivered as %04x/%s, chip sent %04x/%s", out.Status, head(out.Data), e.RSW, head(rdata)), sent
+	}
+	// what earlier exchanges handed to the caller is the caller's: this exchange must not have changed it
+	for _, k := range w.kept {
+		if !bytes.Equal(k.got, k.want) {
+			return fmt.Sprintf("the response data returned by exchange %d of this session (%s) was changed by a later exchange (now %s): the result aliases state of the session",
+				k.n, head(k.want), head(k.got)), sent
+		}
+	}
+	if len(out.Data) > 0 && len(w.kept) < 64 {
+		w.kept = append(w.kept, keptResult{w.lk.sent, out.Data, bytes.Clone(rdata)})
 	}
 	if !bytes.Equal(w.nfc.SM().SSC(), w.chip.SSC) {
 		return fmt.Sprintf("counter after the exchange is %x, the chip has %x", w.nfc.SM().SSC(), w.chip.SSC), sent
